@@ -45,6 +45,11 @@ func (xmp *XMP) parser(p property) (err error) {
 
 // parseDate parses a Date and returns a time.Time or an error
 func parseDate(buf []byte) (t time.Time, err error) {
+	// every accepted layout starts with "2006-01-02T15:04:05"; text of another shape is not
+	// handed to time.Parse (whose errors quote it, three times over for the three layouts)
+	if len(buf) < 19 || buf[4] != '-' || buf[7] != '-' || buf[10] != 'T' || buf[13] != ':' || buf[16] != ':' {
+		return t, errDateLayout
+	}
 	str := string(buf)
 	if t, err = time.Parse("2006-01-02T15:04:05Z07:00", str); err != nil {
 		if t, err = time.Parse("2006-01-02T15:04:05.00", str); err != nil {
